@@ -144,8 +144,12 @@ def value_matrix(ctx, h, rng, full_lengths):
                 if "store" in vals:
                     h.node.data_store.setdefault(vm.index, {})[vm.sub] = expected_bytes(dt, vals["store"])
                 h.cb_values.clear()
+                app_buffer = None
                 if "callback" in vals:
                     h.cb_values[(vm.index, vm.sub)] = vals["callback"]
+                    if isinstance(vals["callback"], bytes) and rng.random() < 0.5:
+                        # the application serves the entry from a buffer of its own that it keeps (a bytearray)
+                        app_buffer = h.cb_values[(vm.index, vm.sub)] = bytearray(vals["callback"])
                 winner = next(s for s in ("callback", "store", "value", "default") if s in vals)
                 want = expected_bytes(dt, vals[winner])
                 case = {"workload": "value-matrix", "index": vm.index, "sub": vm.sub, "type": R.NAMES[dt], "kind": o.kind,
@@ -158,6 +162,14 @@ def value_matrix(ctx, h, rng, full_lengths):
                 elif res[1] != want:
                     ctx.violation(f"upload-wrong-bytes:{winner}:{'empty' if not want else 'nonempty'}",
                                   f"reference client obtained {res[1].hex()} expected {want.hex()} (source {winner})", case, h.rig.wire(12))
+                if app_buffer is not None:
+                    # serving it once must not use it up: the buffer is the application's, and a second upload sees it again
+                    res2 = client.upload(vm.index, vm.sub)
+                    ctx.count("uploads_compared")
+                    if bytes(app_buffer) != want:
+                        ctx.violation("upload-consumed-the-callback-buffer", f"after one upload the application's bytearray holds {bytes(app_buffer).hex()} instead of {want.hex()}", case, h.rig.wire(12))
+                    elif res2 != ("ok", want):
+                        ctx.violation("upload-wrong-bytes:callback:second-upload", f"second upload of the same callback value ended in {res2!r}, expected {want.hex()}", case, h.rig.wire(12))
                 h.flush_findings(case)
                 if len(ctx.samples) < 3 and len(want) in (0, 5):
                     ctx.sample({"case": case, "wire": h.rig.wire(6)})
